@@ -345,6 +345,9 @@ func (c *Ctx) handlerHygiene(rule string) {
 				}
 			}
 		})
+		if bad == "" {
+			bad, badAt = c.sendAfterClose(f)
+		}
 		if bad != "" {
 			r.Fail(rule, key, c.pos(badAt), "handler closure contains "+bad)
 		} else {
@@ -405,4 +408,66 @@ func onlyNilErrorGuards(in ssa.Instruction) bool {
 		}
 	}
 	return true
+}
+
+// sendAfterClose: a handler (including closures it runs) closes a captured channel and, on
+// another path, sends on the same channel without that send being excluded once the close has
+// happened (dominated by the negative edge of the handshake-complete test).
+func (c *Ctx) sendAfterClose(f *ssa.Function) (string, ssa.Instruction) {
+	chanKey := func(v ssa.Value) string {
+		if p, ok := flow.Path(v); ok {
+			return p
+		}
+		return ""
+	}
+	fns := append([]*ssa.Function{f}, flow.Closures(f)...)
+	closed := map[string]bool{}
+	for _, g := range fns {
+		flow.Instrs(g, func(in ssa.Instruction) {
+			if call, ok := in.(*ssa.Call); ok && isBuiltinCall(call, "close") {
+				if k := chanKey(call.Call.Args[0]); k != "" {
+					closed[k] = true
+				}
+			}
+		})
+	}
+	if len(closed) == 0 {
+		return "", nil
+	}
+	var bad ssa.Instruction
+	for _, g := range fns {
+		flow.Instrs(g, func(in ssa.Instruction) {
+			var ch ssa.Value
+			switch x := in.(type) {
+			case *ssa.Send:
+				ch = x.Chan
+			case *ssa.Select:
+				for _, st := range x.States {
+					if st.Dir == types.SendOnly {
+						ch = st.Chan
+					}
+				}
+			}
+			if ch == nil || !closed[chanKey(ch)] {
+				return
+			}
+			// excluded after completion: dominated by !ok of smpeer.FromContext
+			okGuard := false
+			for _, gd := range flow.Guards(in) {
+				cond, neg := flow.Cond(gd.If.Cond, gd.Taken)
+				if ex, ok := cond.(*ssa.Extract); ok && ex.Index == 1 && neg {
+					if call, ok := ex.Tuple.(*ssa.Call); ok && flow.IsCallTo(call, pkgSMPeer, "", "FromContext") {
+						okGuard = true
+					}
+				}
+			}
+			if !okGuard {
+				bad = in
+			}
+		})
+	}
+	if bad != nil {
+		return "a send on a channel that the same handler closes, not excluded once the close has happened: a message arriving after the handshake makes the handler panic (send on closed channel) and the connection is torn down", bad
+	}
+	return "", nil
 }
